@@ -400,6 +400,8 @@ def step (st : St) (line : String) : St × String :=
     | some wr =>
       let (w, m) := st.w.renderTo x wr
       let lens := (listOf ((cs.drop 3).toString)).map natOf
+      -- the chunk boundaries are the library's (trusted input); what they cover must be exactly the model's bytes
+      if lens.sum ≠ m.output.length then ({ st with w := w }, s!"short-cs model={m.output.length} cs={lens.sum}") else
       let m' : Emit Unit := ⟨rechunk m.output lens, m.res⟩
       let (r, stop) := runEmit (parseScript script) m'
       ({ st with w := w }, s!"res={showStop stop} calls={r.calls} acc={hexOf r.accepted}")
